@@ -36,3 +36,87 @@ pub fn run(stream: &'static str, args: &Args) {
         f
     });
 }
+
+// ------------------------------------------------------------------ c04adv: coinciding advance sequences
+//
+// Advances (and advance heights) are drawn from two "profiles" shared by all glyphs, and the design has two or three
+// sparse layer masters at *different* locations, each redrawing different glyphs: glyphs whose own location sets differ
+// (but have the same size) then carry the same sequence of advances over their own masters. A per-glyph computation that
+// is shared between glyphs by anything less than (location set, values) is exposed by these inputs.
+pub fn gen_adv_design(rng: &mut Rng) -> design::Design {
+    let mut o = design::GenOpts::default();
+    o.max_axes = 1 + rng.below(2);
+    o.max_glyphs = 6;
+    o.composites = false;
+    o.quads = false;
+    o.sparse = false;
+    o.intermediate = rng.chance(1, 3);
+    o.vertical = rng.chance(1, 2);
+    let mut d = design::gen_design(rng, &o);
+    let names = d.glyph_names();
+    let n_full = d.masters.len();
+    // two profiles: advance at full master i, advance at any sparse master
+    let prof: Vec<(Vec<f64>, f64)> = (0..2).map(|_| {
+        let base = rng.range(300, 700) as f64;
+        let full: Vec<f64> = (0..n_full).map(|i| if i == 0 { base } else { base + rng.range(-120, 240) as f64 }).collect();
+        (full, base + rng.range(-60, 200) as f64)
+    }).collect();
+    let which: Vec<usize> = names.iter().map(|_| rng.below(2)).collect();
+    for (mi, m) in d.masters.iter_mut().enumerate() {
+        for (gi, n) in names.iter().enumerate() {
+            if let Some(g) = m.glyphs.get_mut(n) {
+                g.advance = prof[which[gi]].0[mi];
+                if g.height.is_some() { g.height = Some(prof[which[gi]].0[mi] + 500.0); }
+            }
+        }
+    }
+    // sparse layer masters along axis 0, between the default and one extreme, at distinct fractions
+    let a = &d.axes[0];
+    let (dmin, ddef, dmax) = (d.user_to_design(0, a.min), d.user_to_design(0, a.default), d.user_to_design(0, a.max));
+    let (lo, hi) = if dmax != ddef { (ddef, dmax) } else { (dmin, ddef) };
+    let def_loc = d.masters[d.default_master].loc.clone();
+    let base = d.masters[d.default_master].glyphs.clone();
+    let mut fracs = vec![0.25, 0.5, 0.75];
+    let k = 2 + rng.below(2);
+    let mut free: Vec<String> = names.clone();
+    for _ in 0..k {
+        let f = fracs.remove(rng.below(fracs.len()));
+        let mut l = def_loc.clone();
+        l[0] = lo + (hi - lo) * f;
+        if d.masters.iter().any(|m| m.loc == l) || free.is_empty() { continue; }
+        let mut m = design::Master { name: format!("S{}", d.masters.len()), style: format!("Sparse{}", d.masters.len()), loc: l, sparse: true, ..Default::default() };
+        for _ in 0..1 + rng.below(2.min(free.len())) {
+            if free.is_empty() { break; }
+            let n = free.remove(rng.below(free.len()));
+            let gi = names.iter().position(|x| *x == n).unwrap();
+            let mut g = design::vary_glyph(rng, &base[&n], 60, false);
+            g.advance = prof[which[gi]].1;
+            if g.height.is_some() { g.height = Some(prof[which[gi]].1 + 500.0); }
+            m.glyphs.insert(n, g);
+        }
+        d.masters.push(m);
+    }
+    d
+}
+
+pub fn run_adv(args: &Args) {
+    let seed = args.seed;
+    crate::run_cases("c04adv", args, move |i| {
+        let mut rng = Rng::for_case(seed, "c04adv", i);
+        let d = gen_adv_design(&mut rng);
+        let tmp = build::tmpdir("c04adv");
+        let ds = write::write_design(tmp.path(), &d);
+        let res = build::compile(&ds, &build::BuildOpts::default());
+        let mut f = vec![d.to_sexp()];
+        match res {
+            Ok(bytes) => {
+                f.push(S::k1("result", S::atom("ok")));
+                f.push(dump::dump_all(&bytes));
+            }
+            Err(e) => {
+                f.push(S::kv("result", [S::atom("err"), S::str(&e)]));
+            }
+        }
+        f
+    });
+}
